@@ -273,6 +273,49 @@ def check_write(res, fmt, dest, overwrite, entry, select, kind, pos, oi):
         box.close()
 
 
+def check_reuse(res, order):
+    """The same neutral path holds, one after the other, files of different formats: every read must identify
+    the *current* content (nothing about a path may be remembered between reads)."""
+    from regions import Regions
+    case = {'op': 'reuse', 'order': list(order)}
+    res.evaluations += 1
+    box = Box('absent', 'unused')
+    try:
+        neutral = os.path.join(box.dir, 'same_name.dat')
+        zipped = os.path.join(box.dir, 'same_name.bin')
+        for step, fmt in enumerate(order):
+            regs = _base_list(fmt)
+            src = os.path.join(box.dir, f'src{step}' + WRITE_EXT[fmt][0])
+            with warnings.catch_warnings():
+                warnings.simplefilter('ignore')
+                Regions(regs).write(src, format=fmt)
+            with open(src, 'rb') as fh:
+                data = fh.read()
+            with open(neutral, 'wb') as fh:
+                fh.write(data)
+            with gzip.open(zipped, 'wb') as fh:
+                fh.write(data)
+            ref, _ = _reference(regs, fmt, {})
+            for rname, p in (('content', neutral), ('content_gzip', zipped)):
+                res.transitions += 1
+                try:
+                    with warnings.catch_warnings():
+                        warnings.simplefilter('ignore')
+                        got = list(Regions.read(p))
+                except Exception as e:
+                    res.violation(ID, 'read_back_raises', {**case, 'step': step, 'route': rname},
+                                  f'step {step} ({fmt}) of {order}: reading the re-used path via {rname} raised {type(e).__name__}: {str(e)[:160]}')
+                    continue
+                if not _same(got, ref):
+                    res.violation(ID, 'read_back_differs', {**case, 'step': step, 'route': rname},
+                                  f'step {step} ({fmt}) of {order}: the re-used path read via {rname} gives {len(got)} regions that differ from '
+                                  f'parse(serialize(list)) ({len(ref)} regions) -- the format of the previous content was used?')
+        res.nontriv(('reuse', tuple(order)))
+        res.outcome(('reuse', len(order)))
+    finally:
+        box.close()
+
+
 def cases(tier):
     out = []
     for fmt in FORMATS:
@@ -293,11 +336,19 @@ def cases(tier):
 
 
 def shards(tier, seed):
-    return [{'cases': ch['cases']} for ch in chunks(cases(tier), 64)]
+    out = [{'cases': ch['cases']} for ch in chunks(cases(tier), 64)]
+    out.append({'reuse': [list(p) for p in itertools.permutations(FORMATS)] + [['ds9', 'crtf', 'ds9'], ['fits', 'ds9', 'fits', 'crtf']]})
+    return out
 
 
 def run_shard(shard, tier, seed):
     res = Result()
+    if 'reuse' in shard:
+        for order in shard['reuse']:
+            res.states += 1
+            check_reuse(res, order)
+        res.sample({'op': 'reuse', 'order': shard['reuse'][0]})
+        return res
     for c in shard['cases']:
         res.states += 1
         check_write(res, *c)
@@ -307,5 +358,8 @@ def run_shard(shard, tier, seed):
 
 def replay(case):
     res = Result()
+    if case.get('op') == 'reuse':
+        check_reuse(res, case['order'])
+        return res
     check_write(res, case['fmt'], case['dest'], case['overwrite'], case['entry'], case['select'], case['difficult'], case['pos'], case['opts'])
     return res
